@@ -28,7 +28,7 @@ ASSUMPTIONS = [
     "numpy casts double -> float16/float32 round to nearest even with overflow to infinity (the model computes this exactly; compared on every case)",
 ]
 TRUSTED = ["numpy tobytes/frombuffer/astype as the implementation's encoder, struct as the harness-side cross-check"]
-NOT_THEOREMS = ['per-field binary law BinLaw for non-ASCII literals: hypothesis of Props.C09.line_main, evaluated per case; proved for integers, ASCII literals, floats (Props.C09.binLaw_flt: decodeFloat(encodeFloat x) = x rounded to binary16 / 32 / 64, Proofs/FloatBin.lean), dates (Props.C09.binLaw_date, from the text law of dates) and missing values — Props.C09.main_all is the whole statement for every admitted layout (literals are ASCII in the domain)']
+NOT_THEOREMS = ['nothing within the domain: Props.C09.main_all is the whole statement for every admitted layout (the per-field binary law is proved for integers, ASCII literals, floats, dates and missing values; Spec.C09.fieldInDomain admits ASCII literals only, a non-ASCII literal being wider in bytes than in characters). Outside it the bytes are still compared with the model on every case']
 EXHAUSTIVE = {"quick": True, "thorough": True}
 
 import sys
